@@ -276,7 +276,7 @@ fn run_case_inner(case: &Case) -> Result<(), String> {
     r?;
     let live1 = (ByteArena::num_live_chunks(), ByteArena::num_live_bytes());
     if live0 != live1 {
-        return Err(format!("arena leak: live (chunks, bytes) {:?} -> {:?} after everything was dropped", live0, live1));
+        return Err(format!("[leak] arena leak: live (chunks, bytes) {:?} -> {:?} after everything was dropped", live0, live1));
     }
     Ok(())
 }
@@ -301,7 +301,7 @@ fn run_arena(case: &Case, attempts: NonZeroUsize) -> Result<(), String> {
             let ptr = slice.slice().as_ptr() as usize;
             if *n > 0 {
                 if !owning_iovec::verif::is_live(ptr, *n) {
-                    return Err("returned slice is not inside a live arena chunk".into());
+                    return Err("[live] returned slice is not inside a live arena chunk".into());
                 }
                 let chunk = owning_iovec::verif::live_chunks().into_iter().find(|(lo, hi)| *lo <= ptr && ptr + n <= *hi).unwrap();
                 if arena.remaining() != chunk.1 - (ptr + n) {
@@ -394,7 +394,7 @@ fn run_encoder(case: &Case, attempts: NonZeroUsize) -> Result<(), String> {
             (r.start as usize) <= p && p + s.len() <= (r.end as usize)
         };
         if !(owning_iovec::verif::is_live(p, s.len()) || in_static(suffix) || in_static(prefix) || in_static(&PATTERN)) {
-            return Err("an output slice is neither in a live chunk nor in a caller buffer".into());
+            return Err("[live] an output slice is neither in a live chunk nor in a caller buffer".into());
         }
     }
     Ok(())
@@ -503,6 +503,9 @@ fn run_script(rep: &mut Report, script: &[Sym]) {
                                 rep.sample(format!("{} => {:?} after {} reader calls", case.render(), want.result, want.calls));
                             }
                         }
+                        Err(e) if !relevant(&e) => {
+                            rep.count("cases_failing_only_a_sibling_oracle", 1);
+                        }
                         Err(e) => {
                             if run_case(&case).is_ok() {
                                 machinery_failure("C17 violation did not reproduce");
@@ -522,6 +525,8 @@ fn run(ctx: &Ctx) -> Report {
         machinery_failure("readn_mc serves C17 only");
     }
     let mut rep = Report::new();
+    // C17 is about what read_n returns and does to the codec output; leaks and liveness are C10 / C05
+    set_oracles(&[Oracle::Content]);
     let max_len = ctx.tier.pick(6, 7);
     explore(ctx, &mut rep, max_len);
     rep.max_depth = max_len as u64;
